@@ -189,6 +189,14 @@ def run(ctx):
     for n, p in real:
         for prog in progs:
             tasks.append(("real", prog, n, p, E.D(n)))
+    # realistic bitlengths (beyond the completely enumerated ones) on a boundary lattice: the bit-decomposition
+    # gadgets are solved by the engine's weighted-sum rule, so the width costs nothing
+    wide = [(17, REC.BN128)] if not ctx.thorough else [(8, REC.BN128), (16, REC.BN128), (17, REC.BN128), (33, REC.BLS12_381), (65, REC.CURVE25519)]
+    for n, p in wide:
+        for prog in progs:
+            if O.expr_str(prog["expr"], prog["kinds"]) in HEAVY or "F" in prog["kinds"] or "P" in prog["kinds"]:
+                continue
+            tasks.append(("real", prog, n, p, E.wide_lattice(n, full=ctx.thorough)))
     # history-dependent soundness: same call on the same operand objects after an untaken branch
     for prog in progs:
         tasks.append(("reuse", prog, 2, REC.BN128, E.D(2)))
@@ -237,6 +245,7 @@ def run(ctx):
     ctx.cov["distinct_outcomes"] = len(sol_counts) + agg["instances"]
     ctx.cov["traces_validated_against_impl"] = agg["xval_agree"] + agree
     ctx.cov["real_field_configs"] = [{"bitlength": n, "field_bits": p.bit_length()} for n, p in real]
+    ctx.cov["wide_configs"] = [{"bitlength": n, "field_bits": p.bit_length(), "values": len(E.wide_lattice(n, full=ctx.thorough))} for n, p in wide]
     ctx.cov["small_field_configs"] = [{"bitlength": n, "p": p} for n, p in small]
     ctx.cov["exhaustive"] = agg["undecided"] == 0 and agg["capped"] == 0
     ctx.cov["rule"] = ("instance = one value-returning program (all operators x SS/SK/KS, unary, selection, "
@@ -248,7 +257,7 @@ def run(ctx):
                        "traces_validated_against_impl = small-field instances on which brute force and the "
                        "exact engine returned identical solution sets")
     ctx.assumptions += ["alarm only with a concrete real-field witness that re-verifies against every recorded constraint",
-                        "soundness for bitlengths > 4 is extrapolated from 2..4 (gadgets are uniform in the bitlength)"]
+                        "complete operand intervals only for bitlengths 2..4; bitlengths 8..65 on a boundary lattice of operand values (all witness choices each)"]
     ctx.sample({"program": "floordiv(S0, S1)", "inputs": [7, 2], "bitlength": 3, "solutions": 2,
                 "note": "quotient 7*2^-1 mod p with remainder 0 also satisfies the system (known finding)"})
 
